@@ -6,7 +6,8 @@ import argparse, json, os, re, sys
 VERIF = os.path.dirname(os.path.dirname(os.path.abspath(__file__)))
 ap = argparse.ArgumentParser()
 ap.add_argument("log")
-ap.add_argument("--rounds", default="3,4,5,6")
+ap.add_argument("--rounds", default="1,2,3,4,5,6")
+ap.add_argument("--compact", action="store_true", help="one short row per seed (for DESIGN.md); default: long form with the summary (seeded/INDEX.md)")
 a = ap.parse_args()
 rounds = {int(x) for x in a.rounds.split(",")}
 verdict = {}
@@ -20,6 +21,8 @@ for name in sorted(os.listdir(os.path.join(VERIF, "seeded"))):
     if not os.path.exists(mp):
         continue
     m = json.load(open(mp))
+    if "round" not in m and "round 1" in (m.get("origin") or ""):
+        m["round"], m["kind"] = 1, m.get("kind") or "bug"
     if m.get("round") not in rounds:
         continue
     st, info = verdict.get(name, ("?", "not in the log"))
@@ -34,6 +37,13 @@ for name in sorted(os.listdir(os.path.join(VERIF, "seeded"))):
     else:
         res = "silent (no longer a fault after the repair)" if st == "OK" else f"**{st}**"
     rows.append((m.get("round"), name, kind, summ, res))
+if a.compact:
+    print("| seed | round, kind | verdict of the current checks |")
+    print("|---|---|---|")
+    for r in sorted(rows, key=lambda r: (r[1].split("-")[0], r[0] or 0, r[1])):
+        print(f"| {r[1]} | {r[0]}, {r[2]} | {r[4]} |")
+    print(f"\n{len(rows)} seeds: " + ", ".join(f"{sum(1 for r in rows if r[2] == k)} {k}" for k in sorted({r[2] for r in rows})) + ".")
+    sys.exit(0)
 print("| round | seed | kind | change | verdict |")
 print("|---|---|---|---|---|")
 for r in sorted(rows):
